@@ -448,7 +448,7 @@ func propC13(rec *stats.Rec, sc *scratch) func(t *rapid.T) {
 				last = fmt.Sprintf("removeDir %s", l.Pool[i].Name)
 			},
 			"recheck": func(t *rapid.T) { last = "recheck" }, // always enabled: rapid gives up when every drawn action skips
-			"": check,
+			"":        check,
 		})
 	}
 }
